@@ -292,6 +292,14 @@ class Scratch:
             from pathlib import Path
 
             return Path(os.path.relpath(ab, self.dir(self.cwd)))
+        if style == "link":
+            # a symbolic link (in another directory of the tree) that points at the file
+            self.n_links = getattr(self, "n_links", 0) + 1
+            ln = os.path.join(self.root, "b" if d != "b" else "a", f"link{self.n_links}-{name}")
+            if os.path.lexists(ln):
+                os.unlink(ln)
+            os.symlink(ab, ln)
+            return ln
         raise HarnessError(style)
 
     def cleanup(self):
